@@ -389,7 +389,19 @@ def rule_activation_identity(ck):
         ck.ob("kind.activation_identity", "end_of_scope/removal-checks-activation", ok, d, g.loc(), what="the scope end reached by a deeper activation (recursion) or by another thread removes the watchpoint while the watched variable is still live")
 
 
+
+def rule_complete_walks(ck):
+    ck.rule("loop.all_slots", "every walk over the watchpoint list (clear_all, clear_local_disable_global, refresh) and over the four debug address registers (HardwareDebugState::sync) is complete: a pass that ends early leaves watchpoints armed, or registers unwritten, on some slot or thread")
+    rule_complete_passes(ck, "loop.all_slots", [
+        ("debugger::watchpoint::WatchpointRegistry::clear_all", ".watchpoints", "clear_all ends before the last watchpoint: debug registers stay armed after detach / quit"),
+        ("debugger::watchpoint::WatchpointRegistry::clear_local_disable_global", ".watchpoints", "the exit / restart path ends before the last watchpoint: stale watchpoints survive into the next run"),
+        ("debugger::watchpoint::WatchpointRegistry::refresh", ".watchpoints", "restart re-arms only some of the global watchpoints"),
+        ("debugger::register::debug::HardwareDebugState::sync", ".address_regs", "not every debug address register is written to the thread"),
+    ])
+
+
 def run(ck):
+    rule_complete_walks(ck)
     rule_activation_identity(ck)
     rule_companion_identity(ck)
     rule_bits(ck)
